@@ -445,7 +445,8 @@ def gen_index(bs, rng, adv):
 
 
 class Call:
-    def __init__(self, run, desc, args=(), expect=None, exact=True, rule=None, affected=None, existing_only=False):
+    def __init__(self, run, desc, args=(), expect=None, exact=True, rule=None, affected=None, existing_only=False, flags=None):
+        self.flags = dict(flags or {})
         self.run, self.desc, self.args = run, desc, list(args)
         self.expect, self.exact, self.rule, self.affected = expect, exact, rule, affected
         self.existing_only = existing_only
@@ -812,15 +813,33 @@ def _setitem_idx(td, rng):
     if not paths or idx is None:
         return None
     kind = rng.choice(["scalar", "td"])
+    torch = T()["torch"]
+    bare = (isinstance(idx, list) or (isinstance(idx, torch.Tensor) and idx.dtype == torch.int64)
+            or (isinstance(idx, tuple) and len(idx) == 1 and (isinstance(idx[0], list) or (isinstance(idx[0], torch.Tensor) and idx[0].dtype == torch.int64))))
+    fl = {"bare_int_array_index": bool(bare)}
     if kind == "scalar":
-        return Call(lambda x: x.__setitem__(idx, 888.0), {"m": "__setitem__", "idx": _desc_idx(idx), "value": 888.0},
-                    expect=_at_expect(idx, lambda q: 888.0))
+        v888 = torch.tensor(888.0, dtype=dt())
+        return Call(lambda x: x.__setitem__(idx, v888), {"m": "__setitem__", "idx": _desc_idx(idx), "value": 888.0},
+                    expect=_at_expect(idx, lambda q: 888.0), flags=fl)
     try:
         src, vals = _src_at(td, paths, idx, 1900)
     except Exception:  # noqa: BLE001
         return None
     return Call(lambda x: x.__setitem__(idx, src), {"m": "__setitem__", "idx": _desc_idx(idx), "value": "td"}, args=[src],
-                expect=_at_expect(idx, lambda q: vals[q]))
+                expect=_at_expect(idx, lambda q: vals[q]), flags=fl)
+
+
+@op("set_:missing-key", "set_", "inplace")
+def _set_missing(td, rng):
+    """set_ on a key that does not exist (directly, below an existing node, below a missing node): whatever the outcome, the
+    key set must stay what it was"""
+    bs = td_bs(td)
+    p0 = rng.choice([("zz",), ("n", "zz"), ("qq", "zz"), ("qq", "rr", "zz")])
+    have = set(keyset(td))
+    missing_parent = len(p0) > 1 and "/".join(p0[:-1]) not in have
+    val = fresh_like(T()["torch"].zeros(bs + [2]), 2600)
+    return Call(lambda x: x.set_(p0 if len(p0) > 1 else p0[0], val), {"m": "set_", "key": list(p0), "missing": True}, args=[val],
+                flags={"missing_intermediate_node": missing_parent})
 
 
 # ---------------------------------------------------------------------------------------------- out-of-place: fresh results
@@ -1719,6 +1738,8 @@ def _run_case(case, fx):
             "sub_index_advanced": _sub_adv(fx),
             "lazy_materialising_op": fx.spec["kind"] == "lazy" and opx.method in LAZY_MATERIALISING,
             "sub_select_exclude": fx.spec["kind"] == "sub" and opx.method in ("select", "exclude")}
+
+    sig0.update(call.flags)
 
     def fail(label, detail, **sig):
         if not out["fails"]:
